@@ -129,7 +129,7 @@ fn monitor(o: &SOutcome, init: u16, expect_rounds: usize, ctx: &Value, f: &mut F
             let prev: std::collections::HashSet<u16> = w.sends.iter().filter(|s| s.round == r - 1).map(|s| s.seq).collect();
             if let Some(x) = sends.iter().find(|s| prev.contains(&s.seq)) {
                 let dublin_v6 = w.cfg.strategy.multipath_strategy == MultipathStrategy::Dublin && w.cfg.strategy.target_addr.is_ipv6();
-                let regime = if dublin_v6 { "dublin-ipv6".to_string() } else { format!("tcp:initial-sequence{}63999", if init > 63999 { ">" } else { "<=" }) };
+                let regime = if dublin_v6 { "dublin-ipv6".to_string() } else { (if init > 64511 { "tcp:initial-sequence>64511" } else if init > 63999 { "tcp:initial-sequence>63999" } else { "tcp:initial-sequence<=63999" }).to_string() };
                 add(f, format!("previous-round-sequence-valid-in-current-round:{regime}:sequence-genuinely-reused"), format!("round {r} re-uses sequence {} of round {} [{ctx}]", x.seq, r - 1), ctx.clone(), r);
             }
         }
@@ -228,8 +228,24 @@ pub fn run(args: &Args) -> i32 {
     // (states = distinct (round-start sequence, size, regime) nodes visited; transitions = rounds)
     let totals = Mutex::new((BTreeSet::<(u8, u16, u16)>::new(), 0u64, 0u64, 0u64, 0u64));
 
+    // the statement is quantified over the initial sequences a tracer can be configured with:
+    // 0..=64511 is what Builder::build accepts.  Ask the real Builder for every 16-bit value; any
+    // value above 64511 that it accepts joins the boundary initial sequences of parts A and D.
+    let beyond: Vec<u16> = {
+        let target: std::net::IpAddr = "10.9.9.9".parse().unwrap();
+        let acc: Vec<u16> = (64512..=u16::MAX).filter(|x| trippy_core::Builder::new(target).initial_sequence(*x).build().is_ok()).collect();
+        let mut v = vec![];
+        if let (Some(lo), Some(hi)) = (acc.first(), acc.last()) {
+            v = vec![*hi, acc[acc.len() / 2], *lo];
+            v.dedup();
+        }
+        v
+    };
+    rep.set("initial_sequences_above_64511_accepted_by_builder", json!(beyond));
+
     // ---- Part A: boundary band, general regime, TCP re-issue bursts ------------------------
-    let inits: Vec<u16> = if tier == Tier::Thorough { vec![64511, 64510, 64257, 64256, 64000, 63999, 63998, 33434, 0] } else { vec![64511, 64000, 63999, 33434] };
+    let mut inits: Vec<u16> = if tier == Tier::Thorough { vec![64511, 64510, 64257, 64256, 64000, 63999, 63998, 33434, 0] } else { vec![64511, 64000, 63999, 33434] };
+    inits.extend(&beyond);
     let r1s: Vec<usize> = if tier == Tier::Thorough {
         (0..=511).collect()
     } else {
@@ -306,7 +322,7 @@ pub fn run(args: &Args) -> i32 {
                     if let Some(p) = &with.panic {
                         add(&mut local, format!("{}@stale-response", p.key()), format!("{} [{ctx}] stale sequence {x}", p.message), json!({"ctx":ctx,"stale_sequence":x,"deliver_at_recv_call":call}), n + r1);
                     } else if let Some(d) = same_publishes(&with, &inert) {
-                        let regime = if init > 63999 { "initial-sequence>63999" } else { "initial-sequence<=63999" };
+                        let regime = if init > 64511 { "initial-sequence>64511" } else if init > 63999 { "initial-sequence>63999" } else { "initial-sequence<=63999" };
                         let how = if reused.contains(&x) { "sequence-genuinely-reused" } else { "stale-slot" };
                         add(&mut local, format!("previous-round-sequence-valid-in-current-round:tcp:{regime}:{how}"), format!("a response naming sequence {x} of round {nr}, delivered in round {}, changed the trace: {d} [{ctx}]", nr + 1), json!({"ctx":ctx,"stale_sequence":x,"deliver_at_recv_call":call}), n + r1);
                     }
@@ -383,7 +399,8 @@ pub fn run(args: &Args) -> i32 {
 
     // ---- Part D: Dublin/IPv6 regime ---------------------------------------------------------
     let ms: Vec<u8> = if tier == Tier::Thorough { (1..=254).collect() } else { vec![1, 2, 3, 7, 64, 127, 128, 170, 171, 253, 254] };
-    let d_inits: Vec<u16> = if tier == Tier::Thorough { vec![0, 33434, 64511] } else { vec![33434, 64511] };
+    let mut d_inits: Vec<u16> = if tier == Tier::Thorough { vec![0, 33434, 64511] } else { vec![33434, 64511] };
+    d_inits.extend(&beyond);
     let mut tasks_d = vec![];
     for &i in &d_inits {
         for &m in &ms {
@@ -507,7 +524,7 @@ pub fn run(args: &Args) -> i32 {
     rep.set("distinct_nontrivial", json!(nodes.len()));
     rep.set("stale_response_differentials", json!(diffs));
     rep.set("wire_level_datagrams_checked", json!(wire_checked));
-    rep.set("rule", json!("state = (regime, round-start sequence, round size); transition = one round of the real Strategy::run. A: from boundary initial sequences, first round r1 then a round of every size n in 1..=512 (TCP re-issue bursts), + capacity (513th slot => InsufficientCapacity, 512 fine); after the n-round a response naming its first/middle/last sequence is delivered in the next round and the published rounds must equal those of a run where that response names 65535 (never valid). C: constant-size walks through two wrap-arounds for every size. D: Dublin/IPv6 regime, every probes-per-round value, stale-response differential at each wrap. E: wire level Dublin/IPv6 payload length. Monitor: consecutive, < 65535, <= 512 per round, next round starts at last+1 or the initial sequence, round ids"));
+    rep.set("rule", json!("state = (regime, round-start sequence, round size); transition = one round of the real Strategy::run. Boundary initial sequences = the fixed list below 64512 + whatever Builder::build accepts above 64511 (all 1024 values asked). A: from boundary initial sequences, first round r1 then a round of every size n in 1..=512 (TCP re-issue bursts), + capacity (513th slot => InsufficientCapacity, 512 fine); after the n-round a response naming its first/middle/last sequence is delivered in the next round and the published rounds must equal those of a run where that response names 65535 (never valid). C: constant-size walks through two wrap-arounds for every size. D: Dublin/IPv6 regime, every probes-per-round value, stale-response differential at each wrap. E: wire level Dublin/IPv6 payload length. Monitor: consecutive, < 65535, <= 512 per round, next round starts at last+1 or the initial sequence, round ids"));
     rep.sample(json!({"part":"A","initial_sequence":64511,"round_sizes":[255,258,3,2],"stale_sequence":"first of round 1, delivered at the first receive of round 2"}));
     rep.sample(json!({"part":"D","initial_sequence":33434,"probes_per_round":171,"note":"wraps every third round"}));
     rep.assumptions = vec!["round sizes above 254 are produced by TCP AddressInUse re-issue bursts at the Network seam".into()];
